@@ -510,7 +510,7 @@ func c14Run(t *rapid.T, st *vkit.Stats) {
 	add("wait", m.ruleWait)
 	add("burst", m.ruleBurst)
 	add("storm", m.ruleStorm)
-	t.Repeat(actions)
+	t.Repeat(vkit.NoStarve(actions, nil))
 
 	// ---- teardown: open every gate in a drawn order; once the bubble is quiescent everything must be over
 	for {
